@@ -117,6 +117,7 @@ void print_ws_json(FILE *f)
 int main(int argc, char **argv)
 {
         wcfg_defaults(&W);
+        W.ubuf_size = -1;
         struct mcx_opts o = {0};
         o.stop_at_first = 1;
         o.replay_dir = "replays";
@@ -193,7 +194,7 @@ int main(int argc, char **argv)
         if (table_parse(&W, table)) mcx_fatal("cannot parse table '%s'", table);
         if (events) parse_events(events);
         W.buf_size = W.shared ? 2 * W.cap : W.cap;
-        if (!W.shared && W.ubuf_size == 0) W.ubuf_size = W.cap;
+        if (W.ubuf_size < 0) W.ubuf_size = W.cap;
         /* record the full command line so that a replay file is self-contained */
         size_t cl = 0;
         cl += (size_t)snprintf(cfgline + cl, sizeof cfgline - cl, "argv");
